@@ -298,7 +298,7 @@ func (s *Store) LoadByConfirmSelector(ctx context.Context, selector string) (aut
 	defer s.mu.Unlock()
 	for _, pid := range s.sortedPIDs() {
 		u := s.users[pid]
-		if selector != "" && u.ConfirmSelector == selector {
+		if u.ConfirmSelector == selector { // exact match like a database column, the empty string included
 			return s.wrap(u.clone()).(authboss.ConfirmableUser), nil
 		}
 	}
@@ -313,7 +313,7 @@ func (s *Store) LoadByRecoverSelector(ctx context.Context, selector string) (aut
 	defer s.mu.Unlock()
 	for _, pid := range s.sortedPIDs() {
 		u := s.users[pid]
-		if selector != "" && u.RecoverSelector == selector {
+		if u.RecoverSelector == selector { // exact match like a database column, the empty string included
 			return s.wrap(u.clone()).(authboss.RecoverableUser), nil
 		}
 	}
